@@ -1,4 +1,5 @@
 pub mod c02;
+pub mod c03;
 pub mod c04;
 pub mod c05;
 pub mod c06;
@@ -25,6 +26,7 @@ use crate::engine::PropertySpec;
 pub fn spec(id: &str) -> Option<PropertySpec> {
     Some(match id {
         "C02" => c02::spec(),
+        "C03" => c03::spec(),
         "C04" => c04::spec(),
         "C05" => c05::spec(),
         "C06" => c06::spec(),
